@@ -139,6 +139,12 @@ func runLeafCase(rep *vevid.Report, b *vbox.Box, c lcase, tr timeutil.TimeRange,
 		req.PhysicalPlan = []byte(strings.Replace(string(req.PhysicalPlan), `"database":"db"`, `"database":"nodb"`, 1))
 	}
 	resps := b.LeafOnce(procNode, req, horizon, quiet)
+	if len(resps) == 0 {
+		// a wall-clock limit is no oracle: only a request that stays unanswered twice in a row is reported
+		rep.Count("requests_asked_twice_after_no_response", 1)
+		req.RequestID += "-again"
+		resps = b.LeafOnce(procNode, req, horizon, quiet)
+	}
 	rep.DistinctNontrivial++
 	if c.Corrupt != "" {
 		// a corrupted request must not be answered with a successful response
